@@ -302,6 +302,198 @@ class _WriterFinish:
                 "whole-bytes": DLEN(s.result) == CEIL8(w._bit_offset),
                 "padding-zero": TAIL_ZERO(s.result, w._bit_offset)}
 
+# ------------------------------------------------------------------------------------------------ primitive codec
+from pyvc.values import Kind, Obj, EnumV, RefSort
+from pyvc.spec import REG
+from . import c12  # noqa: contracts of inclusive_value_range (proved there for every width)
+from .common import (BOOLEAN_T, SIGNED_T, UNSIGNED_T, BYTE_T, UTF8_T, FLOAT_T, CASTMODE, SATURATED, TRUNCATED,
+                     cast_mode_ord)
+
+# the value-range contracts are used at call sites here: their result is a ValueRange record
+for _q in (SIGNED_T, UNSIGNED_T, FLOAT_T):
+    REG.contracts["pydsdl." + _q.replace("pydsdl.", "") + ".inclusive_value_range"].returns = c12.ValueRangeK
+
+
+class ConcreteType(Kind):
+    """Finite instantiation: one concrete primitive / void type object (class, width, cast mode)."""
+
+    def __init__(self, clsname, n, cast=SATURATED):
+        self.clsname, self.n, self.cast = clsname, n, cast
+
+    def build(self, ctx, mk):
+        eng = ctx.engine
+        cls = eng.repo.cls(self.clsname if self.clsname.startswith("pydsdl.") else "pydsdl." + self.clsname)
+        ref = mk("!ref", RefSort)
+        ctx.assume(eng.tag_fn(ref) == eng.class_id(cls))
+        fields = {"_bit_length": self.n}
+        if self.clsname != VOID_T:
+            cm = eng.repo.cls("pydsdl." + CASTMODE.replace("pydsdl.", ""))
+            name = eng.enum_members(cm)[self.cast]
+            fields["_cast_mode"] = EnumV(cm, name, z3.IntVal(self.cast))
+            fields["_standard_bit_length"] = self.n in (8, 16, 32, 64)
+        return Obj(cls, True, ref, fields, ctx)
+
+    def __repr__(self):
+        return "%s%d%s" % (self.clsname.split(".")[-1].replace("Type", ""), self.n, "t" if self.cast == TRUNCATED else "")
+
+
+def _prim_instances():
+    out = [ConcreteType(BOOLEAN_T, 1)]
+    out += [ConcreteType(UNSIGNED_T, n, c) for n in range(1, 65) for c in (SATURATED, TRUNCATED)]
+    out += [ConcreteType(SIGNED_T, n) for n in range(2, 65)]
+    out += [ConcreteType(BYTE_T, 8, TRUNCATED), ConcreteType(UTF8_T, 8, TRUNCATED)]
+    out += [ConcreteType(VOID_T, n) for n in range(1, 65)]
+    return out
+
+
+def WIDTH(t):
+    return t._bit_length
+
+
+def IS_FLOAT(t):
+    return ISINST(t, "FloatType")
+
+
+def CLAMP(v, lo, hi):
+    return ITE(v < lo, lo, ITE(v > hi, hi, v))
+
+
+def RAW(t, v):
+    """The Specification's wire value of an integer-like primitive: two's complement of the saturated value, or the low
+    bits of the value for the truncated cast mode; a boolean is one bit; void is zero bits set."""
+    n = WIDTH(t)
+    if smt():
+        name = t.cls.name
+        signed = t.cls.is_subclass_of(speclib.CTX.engine.class_by_name("SignedIntegerType"))
+        if name == "BooleanType":
+            return ITE(v != 0, 1, 0)
+        if name == "VoidType":
+            return 0
+        if signed:
+            return LSB(CLAMP(v, -(2 ** (n - 1)), 2 ** (n - 1) - 1), n)
+        if t._cast_mode.term.eq(z3.IntVal(SATURATED)):
+            return CLAMP(v, 0, 2 ** n - 1)
+        return LSB(v, n)
+    name = type(t).__name__
+    if name == "BooleanType":
+        return 1 if v else 0
+    if name == "VoidType":
+        return 0
+    if name == "SignedIntegerType":
+        return CLAMP(v, -(2 ** (n - 1)), 2 ** (n - 1) - 1) % 2 ** n
+    if t.cast_mode.value == SATURATED:
+        return CLAMP(v, 0, 2 ** n - 1)
+    return v % 2 ** n
+
+
+def IN_RANGE(t, v):
+    n = WIDTH(t)
+    if smt():
+        name = t.cls.name
+        signed = t.cls.is_subclass_of(speclib.CTX.engine.class_by_name("SignedIntegerType"))
+    else:
+        name = type(t).__name__
+        signed = name == "SignedIntegerType"
+    if name == "BooleanType":
+        return OR(v == 0, v == 1)
+    if name == "VoidType":
+        return False
+    if signed:
+        return AND(-(2 ** (n - 1)) <= v, v <= 2 ** (n - 1) - 1)
+    return AND(0 <= v, v <= 2 ** n - 1)
+
+
+def DECODE(t, raw):
+    """The value denoted by n wire bits: unsigned as is, signed as two's complement."""
+    n = WIDTH(t)
+    if smt():
+        name = t.cls.name
+        signed = t.cls.is_subclass_of(speclib.CTX.engine.class_by_name("SignedIntegerType"))
+    else:
+        name = type(t).__name__
+        signed = name == "SignedIntegerType"
+    if signed:
+        return ITE(raw >= 2 ** (n - 1), raw - 2 ** n, raw)
+    return raw
+
+
+def IS_NUMERIC(v):
+    if smt():
+        return isinstance(v, (bool, int)) or (isinstance(v, z3.ExprRef) and (z3.is_int(v) or z3.is_bool(v)))
+    return isinstance(v, (bool, int, float))
+
+
+def NUM(v):
+    if smt():
+        from pyvc.values import Int as _I
+
+        return _I.unwrap(v) if IS_NUMERIC(v) else z3.IntVal(0)
+    return int(v) if isinstance(v, (bool, int)) else 0
+
+
+def WRITER_ADVANCED(s, n):
+    o, w = s.old.writer, s.writer
+    return {"prefix": PREFIX_PRESERVED(w._buffer, o._buffer, o._bit_offset),
+            "advance": w._bit_offset == o._bit_offset + n}
+
+
+@contract(SD + "_serialize_primitive", props=["C06"])
+class _SerPrim:
+    params = dict(writer=MutObjOf(WRITER), schema=ObjOf(SERIALIZABLE), value=Int)
+    modifies_params = {"writer": ["_buffer", "_bit_offset"]}
+    instances = lambda: [{"schema": t, "value": k} for t in _prim_instances() for k in (Int, Str)]
+    raises = {"ValueError": lambda s: AND(NOT(ISINST(s.schema, "VoidType")), NOT(IS_NUMERIC(s.value)))}
+
+    def pre(s):
+        return {"primitive-or-void": ISINST(s.schema, "PrimitiveType", "VoidType")}
+
+    def post(s):
+        t, o, w = s.schema, s.old.writer, s.writer
+        n = WIDTH(t)
+        out = dict(WRITER_ADVANCED(s, n))
+        if smt() and t.fields is None:
+            return out  # call site with a symbolic type: only the offset / prefix facts (the wire clause needs the class)
+        if (smt() and t.cls.name == "FloatType") or (not smt() and type(t).__name__ == "FloatType"):
+            return out
+        v = NUM(s.value)
+        bits = BITSVAL(w._buffer, o._bit_offset, n, unfold=False)
+        out["wire"] = bits == RAW(t, v)
+        # what the deserializer returns for these bits is the value itself (in-range values)
+        if not ((smt() and t.cls.name == "VoidType") or (not smt() and type(t).__name__ == "VoidType")):
+            out["round-trip"] = IMPLIES(IN_RANGE(t, v), lambda: DECODE(t, bits) == v)
+        return out
+
+
+@contract(SD + "_deserialize_primitive", props=["C06", "C07"])
+class _DesPrim:
+    params = dict(reader=MutObjOf(READER), schema=ObjOf(SERIALIZABLE))
+    modifies_params = {"reader": ["_bit_offset"]}
+    instances = lambda: [{"schema": t} for t in _prim_instances()]
+
+    def pre(s):
+        return {"primitive-or-void": ISINST(s.schema, "PrimitiveType", "VoidType")}
+
+    def post(s):
+        t, o, r = s.schema, s.old.reader, s.reader
+        n = WIDTH(t)
+        out = {"advance": r._bit_offset == o._bit_offset + n,
+               "frame": AND(SAME_BYTES(r._data, o._data), r._start_offset == o._start_offset, EQ(r._bit_limit, o._bit_limit))}
+        if smt() and t.fields is None:
+            return out
+        name = t.cls.name if smt() else type(t).__name__
+        if name == "FloatType":
+            return out
+        bits = BITSVAL(o._data, o._bit_offset, EFFECTIVE(o, n), unfold=False)
+        if name == "VoidType":
+            out["value"] = IS_NONE(s.result)
+        elif name == "BooleanType":
+            out["value"] = EQ(s.result, bits != 0) if smt() else (s.result is (bits != 0))
+        else:
+            out["value"] = s.result == DECODE(t, bits)
+            out["value-in-range"] = IN_RANGE(t, s.result)
+        return out
+
+
 # ------------------------------------------------------------------------------------------------ native harness
 from pyvc.native import NativeSuite
 
@@ -407,6 +599,52 @@ _WriterAlign.native_extra_post = staticmethod(_writer_inv_native)
 NATIVE.add(WRITER + ".write_bits", _gen_writer, _build_write_bits)
 NATIVE.add(WRITER + ".align_to", _gen_writer, _build_walign)
 NATIVE.add(WRITER + ".finish", _gen_writer, _build_finish)
+
+
+
+def _gen_prim(rng, i):
+    k = rng.choice(["bool", "uint", "uint", "int", "int", "void", "byte", "utf8"])
+    n = {"bool": 1, "byte": 8, "utf8": 8}.get(k) or rng.choice([1, 2, 3, 7, 8, 9, 15, 16, 17, 31, 32, 33, 63, 64])
+    if k == "int":
+        n = max(n, 2)
+    cast = rng.choice(["s", "t"])
+    base = rng.choice([0, 1, -1, 2, 2 ** n - 1, 2 ** n, 2 ** n + 1, 2 ** (n - 1), 2 ** (n - 1) - 1, -(2 ** (n - 1)),
+                       -(2 ** (n - 1)) - 1, -(2 ** n), rng.randrange(-2 ** 66, 2 ** 66), rng.randrange(-300, 300)])
+    value = rng.choice([base, base, base, base, True, False, "x", None])
+    d = _gen_writer(rng, i)
+    d.update(_gen_reader(rng, i))
+    d.update({"type": {"k": k, "n": n, "cast": cast}, "pvalue": value})
+    return d
+
+
+def _mk_prim_type(t):
+    if t["k"] == "int":
+        t = dict(t, cast="s")
+    if t["k"] == "utf8":
+        from pydsdl import _serializable as S
+
+        return S.UTF8Type()
+    return c12._mk_type(t)
+
+
+def _build_ser_prim(d):
+    from pydsdl import _serdes
+
+    w = _mk_writer(d)
+    t = _mk_prim_type(d["type"])
+    return (lambda: _serdes._serialize_primitive(w, t, d["pvalue"])), {"writer": w, "schema": t, "value": d["pvalue"]}
+
+
+def _build_des_prim(d):
+    from pydsdl import _serdes
+
+    r = _mk_reader(d)
+    t = _mk_prim_type(d["type"])
+    return (lambda: _serdes._deserialize_primitive(r, t)), {"reader": r, "schema": t}
+
+
+NATIVE.add(SD + "_serialize_primitive", _gen_prim, _build_ser_prim)
+NATIVE.add(SD + "_deserialize_primitive", _gen_prim, _build_des_prim)
 
 NOT_COVERED = []
 EXPLANATION = ""
